@@ -990,8 +990,155 @@ def gen_cfg(rng, profile):
     return cfg, quad_con, quad_obj
 
 
+# ------------------------------------------------------------------ targeted templates
+def _strip_types(cfg, types):
+    """make sure the given types are NOT natively accepted (so that they are reformulated)"""
+    cfg['accept'] = [t for t in cfg['accept'] if t not in types]
+    drop = tuple(ACC_OPT[t] + '=' for t in types if t in ACC_OPT)
+    cfg['options'] = [o for o in cfg['options'] if not o.startswith(drop)]
+
+
+def gen_shared_case(rng, cfg):
+    """a reified comparison shared between a ONE-SIDED use (objective term, disjunct, implication side) and a MIXED use
+    (iff, count/numberof argument, if-condition inside an equality/both-sided row), in both flattening orders:
+    the context stored on the shared definition is the merge (Context::Add) of the two uses."""
+    m = Model()
+    grids = []
+    a, b = rng.rint(2, 5), rng.rint(2, 5)
+    x = m.var(0, a, True); grids.append([F(v) for v in range(a + 1)])
+    y = m.var(0, b, True); grids.append([F(v) for v in range(b + 1)])
+    z = m.var(0, 1, True); grids.append([F(0), F(1)])
+    rel1 = rng.choice(['ge', 'le', 'gt', 'lt', 'ge', 'le'])
+    rel2 = rng.choice(['ge', 'le', 'gt', 'lt', 'eq'])
+    C = (rel1, ('v', x), ('n', F(rng.rint(1, a))))
+    D = (rel2, ('v', y), ('n', F(rng.rint(1, b))))
+    Z = ('eq', ('v', z), ('n', 1))
+    K = F(rng.choice([10, 5, -10, -5, 3, -3]))
+    one = rng.below(5)
+    mixed = rng.below(6)
+    # the mixed use
+    if mixed == 0:
+        mix_l = ('iff', C, D)
+    elif mixed == 1:
+        mix_l = ('eq', ('count', [C, D, Z]), ('n', F(rng.rint(1, 2))))
+    elif mixed == 2:
+        mix_l = ('iff', Z, ('and', C, D)) if rng.chance(1, 2) else ('iff', ('or', C, Z), D)
+    elif mixed == 3:
+        mix_l = None      # algebraic: (if C then y else x) in a two-sided row
+    elif mixed == 4:
+        mix_l = ('eq', ('numberof', ('n', 1), [('if', C, ('n', 1), ('n', 0)), ('v', z)]), ('n', 1))
+    else:
+        mix_l = ('not', ('iff', C, D))
+    # the one-sided use
+    one_l = None
+    if one == 0 or one == 1:
+        sense = 'min' if one == 0 else 'max'
+        m.obj(sense, lin={x: F(rng.choice([3, 1, -1, 2])), y: F(rng.choice([1, -1, 2]))},
+              nl=('*', ('n', K), ('if', C, ('n', 1), ('n', 0))))
+    elif one == 2:
+        one_l = ('or', C, D) if rng.chance(1, 2) else ('or', ('not', C), Z)
+    elif one == 3:
+        one_l = ('implies', Z, C, ('T',)) if rng.chance(1, 2) else ('implies', C, Z, ('T',))
+    else:
+        # one-sided algebraic row: y + K*(if C then 1 else 0) <= / >= c
+        c0 = F(rng.rint(0, b + 3))
+        if rng.chance(1, 2):
+            m.con(None, c0, lin={y: 1}, nl=('*', ('n', K), ('if', C, ('n', 1), ('n', 0))))
+        else:
+            m.con(c0 - 4, None, lin={y: 1}, nl=('*', ('n', K), ('if', C, ('n', 1), ('n', 0))))
+    if mixed == 3:
+        c0 = F(rng.rint(0, max(a, b)))
+        m.con(c0, c0 + rng.rint(0, 1), nl=('if', C, ('v', y), ('v', x)))
+    logical = [l for l in (one_l, mix_l) if l is not None]
+    if len(logical) == 2 and rng.chance(1, 2):
+        logical.reverse()          # both flattening orders of the two uses
+    for l in logical:
+        m.lcon(l)
+    _strip_types(cfg, ['CondLinConEQ', 'CondLinConLE', 'CondLinConLT', 'CondLinConGE', 'CondLinConGT'])
+    if rng.chance(2, 3):
+        _strip_types(cfg, ['IfThenConstraint', 'AndConstraint', 'OrConstraint', 'NotConstraint', 'CountConstraint'])
+    return m, grids
+
+
+def gen_pl2_case(rng, cfg):
+    """several piecewise-linear terms over variables with different domains (some lower bounds at / beyond the first
+    or second breakpoint, so that the converter shortens the term) with PL NOT accepted natively, in any order"""
+    m = Model()
+    grids = []
+    nterms = rng.rint(2, 3)
+    y = m.var(F(-8), F(12), False)
+    grids.append([F(-8), F(-2), F(0), F(3), F(12)])
+    terms = []
+    for _ in range(nterms):
+        nb = rng.rint(1, 3)
+        b0 = rng.rint(-2, 3)
+        bps = [F(b0)]
+        for _k in range(nb - 1):
+            bps.append(bps[-1] + rng.rint(1, 3))
+        slopes = [F(rng.rint(-2, 3))]
+        for _k in range(nb):
+            sl = F(rng.rint(-2, 4))
+            if sl == slopes[-1]:
+                sl += 1
+            slopes.append(sl)
+        pat = rng.below(4)
+        if pat == 0:        # starts left of every breakpoint
+            lo = int(bps[0]) - rng.rint(1, 3)
+        elif pat == 1:      # starts at / beyond the first breakpoint
+            lo = int(bps[0]) + rng.rint(0, 1)
+        elif pat == 2:      # starts at / beyond the second breakpoint (if any)
+            lo = int(bps[min(1, nb - 1)]) + rng.rint(0, 1)
+        else:
+            lo = int(bps[-1]) - 1
+        hi = max(lo + rng.rint(1, 4), int(bps[0]) + 1)
+        isint = rng.chance(2, 3)
+        j = m.var(lo, hi, isint)
+        g = [F(v) for v in range(lo, hi + 1)]
+        if not isint and hi - lo <= 3:
+            g = sorted(set(g + [F(2 * lo + 1, 2)]))
+        grids.append(g)
+        terms.append(('pl', slopes, bps, j))
+    # keep the grid small
+    while True:
+        tot = 1
+        for g in grids:
+            tot *= len(g)
+        if tot <= 400:
+            break
+        k = max(range(1, len(grids)), key=lambda k: len(grids[k]))
+        grids[k] = grids[k][::2] if len(grids[k]) > 2 else grids[k]
+        if all(len(g) <= 2 for g in grids[1:]):
+            break
+    how = rng.below(3)
+    if how == 0:            # one row per term
+        for t in terms:
+            c0 = F(rng.rint(-4, 10))
+            if rng.chance(1, 2):
+                m.con(None, c0, lin={y: 1}, nl=t)
+            else:
+                m.con(c0 - 6, c0, lin={y: 1}, nl=t)
+    elif how == 1:          # all terms in one row
+        m.con(F(rng.rint(-10, 0)), F(rng.rint(2, 14)), lin={y: 1}, nl=('sum', list(terms)))
+    else:                   # objective + rows
+        m.obj(rng.choice(['min', 'max']), lin={y: 1}, nl=terms[0])
+        for t in terms[1:]:
+            m.con(None, F(rng.rint(-2, 10)), lin={y: 1}, nl=t)
+    _strip_types(cfg, ['PLConstraint'])
+    if rng.chance(1, 2) and cfg.get('sos', 1):
+        if 'SOS2Constraint' not in cfg['accept']:
+            cfg['accept'].append('SOS2Constraint')
+        cfg['options'] = [o for o in cfg['options'] if not o.startswith(('acc:sos2=', 'cvt:sos2='))]
+    return m, grids
+
+
 def gen_case(seed, index, tier='quick'):
     rng = Rng((seed * 0x9E3779B1 + index * 0x85EBCA77 + 12345) & 0xFFFFFFFFFFFFFFFF)
+    if index % 8 == 3:
+        # targeted templates (1/8 of the stream): shared reified comparisons / several PL terms
+        kind = 'shared' if (index // 8) % 2 == 0 else 'pl2'
+        cfg, quad_con, quad_obj = gen_cfg(rng, 'mixed')
+        mm, grids = gen_shared_case(rng, cfg) if kind == 'shared' else gen_pl2_case(rng, cfg)
+        return {'model': model_to_json(mm, grids), 'cfg': cfg, 'profile': 'tmpl-' + kind, 'id': '%d:%d' % (seed, index)}
     profile = PROFILE_ORDER[index % len(PROFILE_ORDER)]
     cfg, quad_con, quad_obj = gen_cfg(rng, profile)
     g = Gen(rng, profile, quad_con, quad_obj)
